@@ -208,11 +208,12 @@ Record shape := mkShape {
   sh_reset : list kfile;                    (* fileStore.Reset: order of the Delete calls *)
   sh_finish_db_first : bool;                (* executeAndFinishDKG: SaveFinished precedes the hand-over *)
   sh_chain_put : list (list Z);             (* boltdb Put: transactions, number of bucket.Put in each *)
-  sh_save_in_place : bool                   (* key.Save: create/truncate the target itself, then write *)
+  sh_save_in_place : bool;                  (* key.Save: create/truncate the target itself, then write *)
+  sh_cb_write_first : bool                  (* callbackStore.Put: the underlying Put (error => return) precedes the dispatch *)
 }.
 
 Definition expected_shape : shape :=
-  mkShape [[BCurrent]] [[BFinished; BCurrent]] [KGroup; KShare] [KShare; KGroup] true [[1]] true.
+  mkShape [[BCurrent]] [[BFinished; BCurrent]] [KGroup; KShare] [KShare; KGroup] true [[1]] true true.
 
 Definition shape_eqb_bucket (a b : dbucket) : bool :=
   match a, b with BCurrent, BCurrent | BFinished, BFinished => true | _, _ => false end.
@@ -310,3 +311,40 @@ Fixpoint boundaries (sh : shape) (evs : list event) (off : nat) : list nat :=
   | [] => [off]
   | ev :: evs' => off :: boundaries sh evs' (off + length (expand sh ev))
   end.
+
+(* ---------------- serving: the callback store on top of the append store ---------------- *)
+
+(* callbackStore.Put (beacon/store.go) hands every stored beacon (round <> 0) to the callback
+   workers: PublicRandStream clients, peers syncing through SyncChain, the node's own hooks. What
+   a callback received has left the node. Two kinds of events are visible from outside: the
+   committed write of a beacon and the hand-over of a beacon to the callbacks. [write_first] is the
+   order read from the source: underlying Put (an error returns at once), then the dispatch. *)
+Inductive cbev := CWrite (b : beacon) | CServe (b : beacon).
+
+Definition cb_put_events (write_first accepted : bool) (b : beacon) : list cbev :=
+  let serve := if b_round b =? 0 then [] else [CServe b] in
+  if write_first then (if accepted then CWrite b :: serve else [])
+  else serve ++ (if accepted then [CWrite b] else []).
+
+(* one lifetime of callbackStore(appendStore(schemeStore(bolt))): the Puts offered, in order *)
+Fixpoint cb_attempts (write_first chained : bool) (last : beacon) (bs : list beacon) : list cbev :=
+  match bs with
+  | [] => []
+  | b :: bs' =>
+      if accepts chained last b
+      then cb_put_events write_first true b ++ cb_attempts write_first chained b bs'
+      else cb_put_events write_first false b ++ cb_attempts write_first chained last bs'
+  end.
+
+Definition written (evs : list cbev) : list beacon :=
+  flat_map (fun e => match e with CWrite b => [b] | CServe _ => [] end) evs.
+Definition served (evs : list cbev) : list beacon :=
+  flat_map (fun e => match e with CServe b => [b] | CWrite _ => [] end) evs.
+
+Definition beacon_eqb (a b : beacon) : bool :=
+  (b_round a =? b_round b) && (b_sig a =? b_sig b) && (b_prev a =? b_prev b).
+
+(* the property's clause, as a predicate on the events that happened before the crash: every
+   beacon handed to a callback is in the chain database a restart finds *)
+Definition served_persisted (c0 : list beacon) (evs : list cbev) : bool :=
+  forallb (fun b => existsb (beacon_eqb b) (c0 ++ written evs)) (served evs).
